@@ -594,44 +594,26 @@ func parseOptsContextRule(p *Prog, r *Report) {
 			r.Unresolved(s.fn)
 			continue
 		}
-		info := fi.Pkg.TypesInfo
 		n := 0
-		ast.Inspect(fi.Decl, func(nn ast.Node) bool {
-			call, ok := nn.(*ast.CallExpr)
-			if !ok {
-				return true
-			}
-			fn, ok := calleeObj(info, call).(*types.Func)
-			if !ok {
-				return true
-			}
-			optIdx := -1
-			switch {
-			case isFunc(fn, modPath+"/pkgload", "PackageLoader", "GetOne"), isFunc(fn, modPath+"/pkgload", "PackageLoader", "GetMatching"):
-				optIdx = 2
-			case isFunc(fn, modPath+"/method", "", "Parse"):
-				optIdx = 1
-			}
-			if optIdx < 0 {
-				return true
-			}
+		for _, lc := range loaderCallsIn(p, fi, fi.Decl.Body, 1) {
+			call := lc.call
 			n++
-			st := fmt.Sprintf("%s/%s#%d ContextMatch", s.fn, fn.Name(), n)
-			lit, owner := resolveParseOpts(p, fi, call.Args[optIdx], 0)
+			st := fmt.Sprintf("%s/%s#%d ContextMatch", s.fn, lc.name, n)
+			lit, owner := resolveParseOpts(p, lc.owner, lc.opt, 0)
 			if lit == nil {
 				r.Bad(st, p.PosStr(call.Pos()), "cannot resolve the method.ParseOpts passed here to a composite literal")
-				return true
+				continue
 			}
 			linfo := owner.Pkg.TypesInfo
 			v := compositeField(lit, "ContextMatch")
 			if v == nil {
 				r.Bad(st, p.PosStr(call.Pos()), "ParseOpts.ContextMatch is not set: arg:context:regex would not apply to this function")
-				return true
+				continue
 			}
 			sel, ok := ast.Unparen(v).(*ast.SelectorExpr)
 			if !ok || sel.Sel.Name != "ArgContextRegex" {
 				r.Bad(st, p.PosStr(v.Pos()), "ContextMatch is "+exprString(v)+", not the configured ArgContextRegex")
-				return true
+				continue
 			}
 			base := namedOf(linfo.TypeOf(sel.X))
 			if base != nil && base.Obj().Name() == s.want {
@@ -643,8 +625,7 @@ func parseOptsContextRule(p *Prog, r *Report) {
 				}
 				r.Bad(st, p.PosStr(v.Pos()), fmt.Sprintf("ContextMatch is taken from the %s, but the setting in effect here is the %s's (method > converter): a method-level arg:context:regex is ignored for this custom function", got, s.want))
 			}
-			return true
-		})
+		}
 	}
 }
 
